@@ -1,5 +1,6 @@
 import Cql.Lemmas.CrcLemmas
 import Cql.Lemmas.Crc32Period.All
+import Cql.Gen.CrcFacts
 /-!
 # C07 — a segment altered after encoding is never accepted when the alteration lies within the checksums'
 guaranteed detection range
@@ -211,6 +212,21 @@ example (rest : Bytes) :
   have hlt := bitAt_lt _ p hp
   have key : ∀ p, p < 56 → bitAt [0, 4, 0, 0, 0, 0, 0] p = true → 10 ≤ p ∧ p < 10 + 32 := by decide +kernel
   exact key p hlt hp
+
+/-- **The CRC code is the code the theorems are about.** The parameters and the shape of the Go functions, regenerated from
+    crc/crc24.go, crc/crc32.go and segment/*.go on every run: initial value and polynomial of the CRC-24, the integer literals
+    and the operators of `ChecksumKoopman` in source order (loop bounds, shifts by 16 / 8 / 1, the 2^24 mask), the CRC-32 seed
+    bytes, the header and trailer lengths. A rewrite of the CRC (another polynomial, a table-driven version, a changed mask)
+    changes these facts and this theorem stops checking. -/
+theorem C07_crc_code_is_the_modelled_one :
+    Cql.Gen.CrcFacts.crc_crc24Init = crc24Init.toNat ∧
+    Cql.Gen.CrcFacts.crc_crc24Poly = crc24Poly.toNat ∧
+    Cql.Gen.CrcFacts.koopmanLiterals = [0, 16, 8, 0, 8, 1, 16777216, 0] ∧
+    Cql.Gen.CrcFacts.koopmanOperators = ["<", "^=", "<<", ">>=", "<", "<<=", "!=", "&", "^="] ∧
+    Cql.Gen.CrcFacts.crc32InitialBytes = Cql.Crc.initialBytes ∧
+    Cql.Gen.CrcFacts.segment_Crc24Length = 3 ∧ Cql.Gen.CrcFacts.segment_Crc32Length = 4 ∧
+    Cql.Gen.CrcFacts.segment_UncompressedHeaderLength = 3 ∧ Cql.Gen.CrcFacts.segment_CompressedHeaderLength = 5 := by
+  decide
 
 end Cql.Props.C07
 
